@@ -104,8 +104,9 @@ TEXT = {
             "default root = root of the explicitly constructed zero value; C12_default_is_constructed: the default backing IS "
             "the constructor's backing of the zero value (same tree) for every type, hence (C02) its encoding is the zero "
             "value's encoding; container fields and composite vector elements of the default are navigable and hold their "
-            "own defaults. Omitted constructor fields, packed-chunk navigation: correspondence (every fixed-structure "
-            "gindex up to depth 3).",
+            "own defaults, as are the data chunks of bit-, byte- and packed vectors (C12_chunks_navigable); a constructor call "
+            "with omitted fields builds the tree of the value with zero values there (C12_omitted_fields). The Python "
+            "classmethods are tied by the correspondence (every fixed-structure gindex up to depth 3).",
             "Coq proof by induction on ty + correspondence", "5 (C12)"),
     "C13": ("Theorems (Coq, every width w>=0, every operand): constructor accepts exactly [0,2^w); coercing operators "
             "(+ - * // % & | ^, both operand orders, same-type or plain-int operand) return the exact mathematical result "
